@@ -253,6 +253,24 @@ def oracle(ctx):
                     tol = 1e-5 if meth in ("broyden1", "newton") else 1e-3
                     if float(grad.norm()) > tol:
                         ctx.fail("oracle", "min:%s:gradient-not-vanishing" % meth, info, float(grad.norm()), "< %g" % tol)
+    # gd / adam stopped by a tiny iteration budget with an overshooting step: either a ConvergenceWarning, or the returned
+    # point is no worse than the initial guess (seeded defect C03/6: the best-point fallback skipped for maxiter=1)
+    wq = torch.tensor([1.0, 2.0, 0.5], dtype=DT)
+    cq = torch.tensor([0.5, -1.0, 2.0], dtype=DT)
+    objq = lambda y, w, c: (0.5 * w * (y - c) ** 2).sum() + 0.05 * (y ** 4).sum()
+    for meth in ("gd", "adam"):
+        for maxiter in (1, 2, 3):
+            for step in (3.0, 8.0):
+                try:
+                    y, warned = run(lambda: minimize(objq, torch.zeros(3, dtype=DT), params=(wq, cq), method=meth, step=step, maxiter=maxiter))
+                except Exception as e:
+                    ctx.fail("oracle", "min:%s:tiny-budget:exception" % meth, {"maxiter": maxiter, "step": step}, repr(e)[:200], "a point or a warning")
+                    continue
+                ctx.count(("min-tiny-budget", meth, maxiter, step))
+                v0, v1 = float(objq(torch.zeros(3, dtype=DT), wq, cq)), float(objq(y, wq, cq))
+                if not warned and v1 > v0 + 1e-12:
+                    ctx.fail("oracle", "min:%s:silent-but-objective-increased" % meth, {"method": meth, "maxiter": maxiter, "step": step},
+                             {"objective_at_result": v1, "objective_at_initial_guess": v0}, "a ConvergenceWarning, or an objective no larger than at the initial guess")
     # far initial guesses on a globally contractive map: the stopping test must be the ABSOLUTE f_tol the caller asked
     # for, not a tolerance relative to the first residual (seeded defect C03/2: arguments of the termination object swapped)
     gen = torch.Generator().manual_seed(ctx.seed + 5)
